@@ -218,7 +218,7 @@ impl<D: ChunkData, E> Writer<D, E> {
             /*@C11 #fh_dead_frame*/ !old(self).shared.is_ok() ==> (final(self).shared == old(self).shared && final(log)@ == old(log)@ && final(self).buf == old(self).buf),
             /*@C10 #fh_prod_rel*/ prod_step(old(self).shared, final(self).shared, old(log)@, final(log)@),
     //@body
-    //@ before "*ready_bytes += full_buf.len();": proof { lemma_push(ready@, full_buf); }
+    //@ at_start: proof { if old(self).shared.is_ok() { lemma_push(old(self).shared.queue(), old(self).buf); } }
     //@end
 
     //@fn src/chunker.rs :: impl Write for Writer :: fn flush add=log props=C08,C09,C10,C11 implicit=C08 rules=R6,R7,STD
